@@ -1,5 +1,5 @@
 (* C11 — no torn values, no corrupted structure under concurrent use. Table level (HtableLtsProofs.v): the (key, value) a lock-free lookup returns are fields of ONE item object created by ONE write (items are never mutated), the per-instant well-formedness invariant WFc holds in EVERY reachable state including between the two stores of an operation, and replaced arrays are frozen. Data-race freedom in the Go memory model sense is outside the model (trusted base item 6); the conc stream runs under -race in the thorough tier. Only `exact` + Print Assumptions. Read-sample ring (ReadBuffer.v, tied by the rb stream): indices stay in range and nothing is fabricated under any interleaving of wait-free producers and the single consumer. Locked structures (MutexAtomicity.v): every reader under the RWMutex sees a state satisfying the invariant preserved by lock-protected bodies. *)
-Require Import KV.Base KV.HtableModel KV.HtableProofs KV.HtableTrace KV.HtableLts KV.HtableLtsProofs KV.ReadBuffer KV.MutexAtomicity KV.PtrModel KV.PtrProofs.
+Require Import KV.Base KV.HtableModel KV.HtableProofs KV.HtableTrace KV.HtableLts KV.HtableLtsProofs KV.ReadBuffer KV.MutexAtomicity KV.PtrModel KV.PtrProofs KV.ItemImmutable.
 Open Scope Z_scope.
 
 (* a hit's key and value come from one item object of one write *)
@@ -17,11 +17,11 @@ Theorem c11_single_item_snapshot :
          rpcof (rth (lfinal g0 sch) r) <> RB ->
          rscript (rth (lfinal g0 sch) r) = rest ->
          lstep (lfinal g0 sch) (S r) = Some (g2, [0; 1; v]) ->
-         exists it : item,
+         exists it : HtableModel.item,
            In it (script_items ws) /\
-           ikey it = k /\
-           ival it = v /\
-           (forall it' : item, In it' (script_items ws) -> iid it' = iid it -> it' = it).
+           HtableModel.ikey it = k /\
+           HtableModel.ival it = v /\
+           (forall it' : HtableModel.item, In it' (script_items ws) -> iid it' = iid it -> it' = it).
 Proof. exact single_item_snapshot. Qed.
 
 (* per-instant structural invariant in every reachable state *)
@@ -132,15 +132,16 @@ Proof. exact ReadBuffer.Examples.lapped_stripe. Qed.
 
 (* a reader holding the RWMutex in read mode sees a state that satisfies every invariant preserved by the write-locked bodies (no half-updated list or counter) *)
 Theorem c11_locked_reader_sees_invariant :
-  forall (S R : Type) (s0 : S) (scripts : list (list (op S R))) (Inv : S -> Prop)
-           (st : state S R) (t : nat),
+  forall (S R : Type) (s0 : S) (scripts : list (list (MutexAtomicity.op S R)))
+           (Inv : S -> Prop) (st : state S R) (t : nat),
          Inv s0 ->
          scripts_ok scripts (preserves Inv) -> reachable s0 scripts st -> in_read st t -> Inv (sh st).
 Proof. exact MutexAtomicity.reader_sees_quiescent_state. Qed.
 
 (* writers exclude writers and readers; the drain token has one holder *)
 Theorem c11_locked_mutual_exclusion :
-  forall (S R : Type) (s0 : S) (scripts : list (list (op S R))) (st : state S R),
+  forall (S R : Type) (s0 : S) (scripts : list (list (MutexAtomicity.op S R)))
+           (st : state S R),
          reachable s0 scripts st ->
          (forall t1 t2 : nat, in_write st t1 -> in_write st t2 -> t1 = t2) /\
          (forall t1 t2 : nat, in_write st t1 -> ~ in_read st t2) /\
@@ -264,6 +265,25 @@ Theorem c11_ptr_lfu_walk :
          (length b < fuel)%nat -> LfuRing.ring_buckets fuel l (fnext (fh l (fhead l))) = b.
 Proof. exact LfuRing.linv_walk. Qed.
 
+(* a lock-free read paused between lookup and field copy, resumed after any writer activity, delivers the triple of one single Set of its key (items immutable once allocated) *)
+Theorem c11_paused_read_delivers_one_write :
+  forall (before : list op) (k : Z) (p : nat) (after : list op),
+         let s := run false init before in
+         lookup (tab s) k = Some p ->
+         exists it : item,
+           resume s p = Some it /\
+           resume (run false s after) p = Some it /\ ikey it = k /\ In it (log s).
+Proof. exact ItemImmutable.paused_read_delivers_one_write. Qed.
+
+(* with recycling of rejected items (seeded change C11q-m1) the paused read returns another key's value *)
+Theorem c11_item_recycling_refuted :
+  exists (before : list op) (k : Z) (p : nat) (after : list op) (it it' : item),
+           let s := run true init before in
+           lookup (tab s) k = Some p /\
+           resume s p = Some it /\
+           ikey it = k /\ resume (run true s after) p = Some it' /\ ikey it' <> k.
+Proof. exact ItemImmutable.recycling_refuted. Qed.
+
 Print Assumptions c11_single_item_snapshot.
 Print Assumptions c11_structure_every_instant.
 Print Assumptions c11_old_arrays_frozen.
@@ -286,3 +306,5 @@ Print Assumptions c11_ptr_find_victim.
 Print Assumptions c11_ptr_find_victim_refines.
 Print Assumptions c11_ptr_sieve_init_refuted.
 Print Assumptions c11_ptr_lfu_walk.
+Print Assumptions c11_paused_read_delivers_one_write.
+Print Assumptions c11_item_recycling_refuted.
